@@ -74,6 +74,14 @@ func (fr *Frame) exec(in ssa.Instruction) {
 			ex.oos("%s: store through non-local pointer at %s", shortName(fr.fn.String()), fr.pos(in))
 			return
 		}
+		if iv, isI := val.(IfaceV); isI && !isErrorType(iv.Typ) {
+			// interface values (e.g. the arguments of hashAll) are kept on the side
+			if fr.ex.valCells == nil {
+				fr.ex.valCells = map[string]Val{}
+			}
+			fr.ex.valCells[cellKey(p)] = iv
+			return
+		}
 		if tp, isP := val.(PtrV); isP && len(tp.Path) == 0 && !p.Cell.Dyn && !tp.Cell.Param {
 			// pointer to a local cell stored into a field: remember the alias
 			var keep []ptrAlias
@@ -322,6 +330,12 @@ func (fr *Frame) execUnOp(x *ssa.UnOp) {
 				fr.set(x, mv)
 				return
 			}
+			if _, isI := x.Type().Underlying().(*types.Interface); isI {
+				if iv, ok := fr.ex.valCells[cellKey(p)]; ok {
+					fr.set(x, iv)
+					return
+				}
+			}
 			if _, isPtr := x.Type().Underlying().(*types.Pointer); isPtr {
 				if tp, ok := fr.aliasAt(p.Cell, p.Path); ok {
 					fr.set(x, tp)
@@ -414,6 +428,12 @@ func (fr *Frame) execBinOp(x *ssa.BinOp) {
 	if isString(t) {
 		switch x.Op {
 		case token.ADD:
+			if sa, ok := strOf[ta]; ok {
+				if sb, ok := strOf[tb]; ok {
+					fr.set(x, TV{StringConst(sa + sb), x.Type()})
+					return
+				}
+			}
 			fr.set(x, TV{Fresh("strcat", SortOf(t)), x.Type()})
 			r := fr.vals[x].(TV).T
 			fr.ex.assume(fr.cur, Eq(SliceLen(r), Add(SliceLen(ta), SliceLen(tb))))
@@ -772,11 +792,28 @@ func (fr *Frame) execTypeAssert(x *ssa.TypeAssert) {
 		fr.opaque(x, "type assert on symbolic interface")
 		return
 	}
-	if iv.Dyn != nil && types.Identical(iv.DynTyp, x.AssertedType) {
-		if x.CommaOk {
-			fr.set(x, TupleV{iv.Dyn, TV{TTrue, types.Typ[types.Bool]}})
+	if iv.Dyn != nil {
+		var res Val
+		match := false
+		if it, isI := x.AssertedType.Underlying().(*types.Interface); isI {
+			match = types.Implements(iv.DynTyp, it)
+			res = iv
 		} else {
-			fr.set(x, iv.Dyn)
+			match = types.Identical(iv.DynTyp, x.AssertedType)
+			res = iv.Dyn
+		}
+		if !match {
+			res = OpaqueV{"failed type assertion", x.AssertedType}
+			func() {
+				defer func() { recover() }()
+				res = TV{ZeroOf(x.AssertedType), x.AssertedType}
+			}()
+		}
+		if x.CommaOk {
+			fr.set(x, TupleV{res, TV{BoolC(match), types.Typ[types.Bool]}})
+		} else {
+			fr.safety(x, "typeassert", BoolC(match))
+			fr.set(x, res)
 		}
 		return
 	}
@@ -845,4 +882,16 @@ func convertRepr(x *Term, from, to types.Type) (r *Term) {
 		return MkCtor(tc, args...)
 	}
 	return x
+}
+
+func cellKey(p PtrV) string {
+	k := fmt.Sprintf("%d", p.Cell.ID)
+	for _, el := range p.Path {
+		if el.IsIdx {
+			k += fmt.Sprintf("[%s]", el.Idx.String())
+		} else {
+			k += fmt.Sprintf(".%d", el.Field)
+		}
+	}
+	return k
 }
